@@ -12,7 +12,7 @@ CONFIG = {
                    "file written by each step against the XSDs shipped in the working tree."),
     "level_note": "lxml's XMLSchema validator and the shipped XSD files are trusted; e-mail options are generated syntactically valid.",
     "technique": "deterministic simulation: seeded option/history swarm with an XSD-validation monitor on every file written",
-    "quick": {"runs": 1200, "budget_s": 90},
+    "quick": {"runs": 2000, "budget_s": 120},
     "thorough": {"runs": 8000, "budget_s": 540},
     "rule": ("one run = random world (incl. empty folders and empty trees) + 3..12 operations; one evaluation = one executed "
              "command. Distinct = (command, option-set class, exit code, #manifests written, has-empty-record-list, "
